@@ -151,6 +151,9 @@ func lineSearch(f objective,
     for !constraints(alpha_j) {
       verifhook.Tick("lineSearch.constraints")
       alpha_j *= 0.5
+      if alpha_j == 0.0 {
+        return 0.0, fmt.Errorf("line search failed")
+      }
     }
     yj, gj, err = f(alpha_j)
     if err != nil {
